@@ -135,12 +135,20 @@ type lookupTagAndType func(tag tag, t msgType) (message, error)
 //
 // The tag value NoTag will always be returned if err is non-nil.
 func recv(l ulog.Logger, r io.Reader, msize uint32, lookup lookupTagAndType) (tag, message, error) {
+	return recvLimit(l, r, func() uint32 { return msize }, lookup)
+}
+
+// recvLimit is recv with the message size limit evaluated once the header of
+// the message has arrived: a receiver may wait for that header while the
+// limit is being renegotiated.
+func recvLimit(l ulog.Logger, r io.Reader, limit func() uint32, lookup lookupTagAndType) (tag, message, error) {
 	// Read a header.
 	var hdr [headerLength]byte
 
 	if _, err := io.ReadAtLeast(r, hdr[:], int(headerLength)); err != nil {
 		return noTag, nil, ConnError{err}
 	}
+	msize := limit()
 
 	// Decode the header.
 	headerBuf := buffer{data: hdr[:]}
